@@ -19,13 +19,14 @@ COMPONENTS = {"real": ["ECAgent.Core.SystemManager.execute_systems (activation p
                        "Model.timestep forwarding"],
               "stub": ["System.execute bodies are harness recorders"]}
 PROBES = ["fired_at_end", "silent_after_end", "negative_start", "end_before_start", "late_registration_out_of_phase",
-          "late_registration_in_phase", "bad_n_rejected", "freq_beyond_horizon", "bare_execute_systems", "reregistered_after_removal"]
+          "late_registration_in_phase", "bad_n_rejected", "freq_beyond_horizon", "bare_execute_systems", "reregistered_after_removal", "registered_from_inside_a_step",
+          "registered_inside_multi_step_request"]
 TECHNIQUE = "deterministic simulation: model clock stepped through the real scheduler vs a reference timer wheel and a single-stepped twin model"
 LEVEL_TEXT = ("Seeded search over timer windows, registration instants and advance patterns; every firing of every timestep is "
               "compared with the predicate start<=t<=end and (t-start)%f==0, the clock with the count of accepted steps, "
               "and execute(n) with n single steps on a twin. Sampling, not proof; horizon <=80 timesteps, <=8 systems.")
 LEVEL_NOTE = "Trusted: the reference predicate; bool step counts are not generated (not settled by the statement)."
-SHRINK_LISTS = ["ops", "systems"]
+SHRINK_LISTS = ["ops", "spawns", "systems"]
 SHRINK_SKIP = ("end",)
 
 BAD = {"zero": (0, ValueError), "neg1": (-1, ValueError), "neg5": (-5, ValueError), "float1": (1.0, TypeError),
@@ -88,21 +89,44 @@ def generate(rng, tier):
             n_ = rng.randint(1, 7)
             ops.append({"op": "adv", "n": n_})
             t += n_
-    return {"systems": systems, "ops": ops}
+    spawns = []
+    if rng.random() < 0.4 and n >= 2:
+        # a system registers another system from inside its execute() - also in the middle of an execute(n) request
+        for _ in range(rng.randint(1, 3)):
+            by, k = rng.sample(range(n), 2)
+            if pending and rng.random() < 0.8:
+                k = rng.choice(pending)          # prefer a system nobody registers from outside
+                if k == by:
+                    by = (k + 1) % n
+            f = systems[by]["freq"]
+            t = max(0, systems[by]["start"]) + f * rng.randint(0, max(1, horizon // (2 * f)))   # a firing instant of the spawner
+            spawns.append({"by": by, "t": min(t, horizon - 1), "k": k})
+    return {"systems": systems, "ops": ops, "spawns": spawns}
 
 
 class World:
-    def __init__(self, model):
+    def __init__(self, model, sc=None):
         self.model = model
         self.log = []
+        self.open_all = set()
+        self.reg = set()
+        self.systems = (sc or {}).get("systems", [])
+        self.spawns = (sc or {}).get("spawns", [])
 
     def on_execute(self, s):
-        self.log.append((self.model.systems.timestep, s.id))
+        t = self.model.systems.timestep
+        self.log.append((t, s.id))
+        for sp in self.spawns:
+            if sp["t"] == t and self.systems and self.systems[sp["by"] % len(self.systems)]["id"] == s.id:
+                spec = spec_defaults(self.systems[sp["k"] % len(self.systems)])
+                if spec["id"] not in self.reg and spec["freq"] >= 1:
+                    self.model.systems.add_system(Rec(spec, self.model, self))
+                    self.reg.add(spec["id"])
 
 
 def execute(sc, ctx):
     m, twin = Model(), Model()
-    w, wt = World(m), World(twin)
+    w, wt = World(m, sc), World(twin, sc)
     ref = RefSched()
     systems = sc["systems"]
     fired = {}
@@ -126,9 +150,19 @@ def execute(sc, ctx):
         new = w.log[before:]
         ctx.event(how, n, new)
         want = []
+        open_pairs = set()      # (t, newcomer): whether a system registered during t already runs in t is left open
         for t in range(t0, t0 + n):
             due = ref.due(t)
             want.extend(sorted((t, sid) for sid in due))
+            for sp in sc.get("spawns", []):
+                if sp["t"] == t and systems and systems[sp["by"] % len(systems)]["id"] in due:
+                    nspec = spec_defaults(systems[sp["k"] % len(systems)])
+                    if not ref.has(nspec["id"]) and nspec["freq"] >= 1:
+                        ref.add(nspec)
+                        open_pairs.add((t, nspec["id"]))
+                        ctx.probe("registered_from_inside_a_step")
+                        if n > 1 and t < t0 + n - 1:
+                            ctx.probe("registered_inside_multi_step_request")
             for s in ref.q:
                 if s["id"] in due:
                     fired[s["id"]] = fired.get(s["id"], 0) + 1
@@ -138,14 +172,17 @@ def execute(sc, ctx):
                     ctx.probe("silent_after_end")
         ref.t += n
         ctx.sim_time += n
-        got = sorted(new)
+        w.open_all |= open_pairs
+        got = sorted(e for e in new if tuple(e) not in open_pairs)
+        want = [e for e in want if e not in open_pairs]
         ctx.check(got == sorted(want), "firing",
                   lambda: f"t in [{t0},{t0 + n}): fired {got} expected {sorted(want)}; "
                           f"windows={[(s['id'], s['start'], s['end'], s['freq']) for s in ref.q]}")
         # executions are stamped with the timestep they ran in, in non-decreasing order
         ctx.check([t for t, _ in new] == sorted(t for t, _ in new), "clock-order", f"{new}")
         check_clock(how)
-        ctx.check(sorted(wt.log) == sorted(w.log), "twin", "execute(n) differs from n single steps")
+        ctx.check(sorted(e for e in wt.log if e not in w.open_all) == sorted(e for e in w.log if e not in w.open_all), "twin",
+                  "execute(n) differs from n single steps")
         ctx.check(twin.timestep == m.timestep, "twin-clock", f"{twin.timestep} != {m.timestep}")
 
     for op in sc["ops"]:
@@ -164,6 +201,8 @@ def execute(sc, ctx):
                 continue
             ctx.expect_ok("add", m.systems.add_system, Rec(spec, m, w))
             ctx.expect_ok("add-twin", twin.systems.add_system, Rec(spec, twin, wt))
+            w.reg.add(spec["id"])
+            wt.reg.add(spec["id"])
             ref.add(spec)
             ctx.event("add", spec["id"], ref.t)
             if spec["start"] < 0:
@@ -185,6 +224,8 @@ def execute(sc, ctx):
             ctx.expect_ok("remove", m.systems.remove_system, sid)
             ctx.expect_ok("remove-twin", twin.systems.remove_system, sid)
             ref.remove(sid)
+            w.reg.discard(sid)
+            wt.reg.discard(sid)
             removed.add(sid)
             ctx.event("remove", sid, ref.t)
         elif kind == "adv":
